@@ -173,6 +173,7 @@ pub fn build_extra_scenario(seed: u64, k: u64, tier: &str, _samples: &Samples) -
         p.xnum_ph = img_idx % 3 == 2;
         p.xindex = img_idx % 4 == 3;
         p.xnum_zero = false;
+        p.big = 0;
         let mut b = gen::build(&mut g, &p);
         let m = Model::of(&b);
         let e = m.ehdr.unwrap();
